@@ -638,7 +638,7 @@ def load_corpus():
 
 
 def run(rep, tier, rng):
-    TR.load()
+    TR.load(strict=False)
     thorough = tier == "thorough"
     cases = load_corpus()
     cases += gen_config(rng, 6000 if thorough else 600)
@@ -659,7 +659,7 @@ def run(rep, tier, rng):
 
 def replay(obj):
     C.use_repo()
-    TR.load()
+    TR.load(strict=False)
     r = obj.get("replay") or obj
     case = dict(r["case"])
     for k, v in r.items():
